@@ -532,7 +532,7 @@ def group_totals(frame, col, group, dates):
   """Per-date totals of `col` over geos of `group`, in the order of `dates` (pure python)."""
   tot = {d: 0.0 for d in dates}
   for d, grp, v in zip(frame['date'], frame['group'], frame[col]):
-    if grp == group and d in tot:
+    if grp == group and d in tot and v == v:       # a missing value contributes nothing
       tot[d] += v
   return np.array([tot[d] for d in dates])
 
